@@ -232,6 +232,9 @@ type Proc struct {
 	CrashAt   int  // if >0: crash immediately before the vfs call with this ordinal (1-based)
 	faultNext bool // the pending filesystem call fails with EIO and has no effect (injected fault)
 	FaultAt   int  // if >0: the vfs call with this ordinal (1-based, reads and writes included) fails with EIO
+	// FaultShort: an injected fault that hits a write of two or more bytes stores the first half of the
+	// bytes and then fails with ENOSPC (a short write on a full disk) instead of failing without effect.
+	FaultShort bool
 	Faults    int
 	InCall    bool
 	// waitReady, when set, makes the process runnable only while it returns true (it is parked at a
@@ -718,10 +721,15 @@ func (f *fd) Write(b []byte) (int, error) {
 	bn := filepath.Base(f.name)
 	p := w.enter(Op{Kind: "write", Name: bn}, vis)
 	ev := &Event{Pid: p.ID, Op: Op{Kind: "write", Name: bn}}
+	short := false
 	if p.takeFault() {
-		ev.Err = "EIO"
-		w.record(ev)
-		return 0, pathErr("write", f.name, syscall.EIO)
+		if !(p.FaultShort && len(b) >= 2 && !f.closed && f.write) {
+			ev.Err = "EIO"
+			w.record(ev)
+			return 0, pathErr("write", f.name, syscall.EIO)
+		}
+		short = true
+		b = b[:len(b)/2]
 	}
 	if f.closed {
 		ev.Err = "closed"
@@ -748,6 +756,11 @@ func (f *fd) Write(b []byte) (int, error) {
 	ev.Mutated = true
 	ev.NewIno = f.ino
 	ev.Result = fmt.Sprintf("%d", len(b))
+	if short {
+		ev.Err = "ENOSPC-short"
+		w.record(ev)
+		return len(b), pathErr("write", f.name, syscall.ENOSPC)
+	}
 	w.record(ev)
 	return len(b), nil
 }
